@@ -184,7 +184,8 @@ func (x *World) Exec(i int, op Op) map[string]interface{} {
 	w := x.w
 	x.events = x.events[:0]
 	args := map[string]interface{}{}
-	line := map[string]interface{}{"i": i, "w": op.W, "op": op.Op, "api": op.Api, "args": args}
+	line := map[string]interface{}{"i": i, "w": op.W, "op": op.Op, "api": op.Api, "args": args,
+		"gen": strings.HasPrefix(op.Api, "generic.")}
 	var res result
 	var panel map[string]interface{}
 	wasLocked := w.IsLocked()
@@ -413,6 +414,9 @@ func (x *World) Exec(i int, op Op) map[string]interface{} {
 					iface = &struct{ F uint16 }{}
 				}
 				p := w.Set(e, x.idOf(op.C), iface)
+				if !w.Alive(e) {
+					return // accepted for a stale handle: recorded as "no panic"; no comparison call may mask that
+				}
 				if c != nil && c.sized && p != w.Get(e, c.id) {
 					panic("verif: Set returned a pointer different from Get")
 				}
